@@ -23,7 +23,7 @@ from .xvc import XvcRepo
 
 TRUSTED = [
     "Coq 8.16.1 kernel, coqc; vm_compute in Examples only; no native_compute",
-    "axioms: none (Print Assumptions: Closed under the global context for every theorem of Props/C14.v)",
+    "axioms: none (Print Assumptions: Closed under the global context for all 9 theorems of Props/C14.v and for C14_full_refuted_dup_names)",
     "extraction: ExtrOcamlBasic only; ocamlfind ocamlopt 4.13.1; coq/extract/common.ml + schema_driver.ml (parsing/printing)",
     "correspondence: vlib/c14.py (generator, order-preserving encoding of XvcDependency / XvcOutput keys, canonicaliser, oracle), the hook-instrumented xvc binary built from /repo",
     "modelled, not verified: pipeline/src/pipeline/api/{export,import,new,update,step_new,step_update,step_dependency,step_output}.rs, "
@@ -132,15 +132,18 @@ def dep_key_cli(kind, arg):
         return [3] + enc_str(arg)
     if kind == "glob":
         return [4] + enc_str(arg)
+    # the three splitters are the regular expressions of step_dependency.rs (leftmost match, `.` stops at a line break)
     if kind in ("regex_items", "regex"):
-        f, rx = arg.split(":/", 1)
+        m = re.search(r"(?P<f>[^:/]+):/(?P<rx>.+)", arg)
+        f, rx = m.group("f"), m.group("rx")
         return [5 if kind == "regex_items" else 6] + enc_path(f) + enc_str(rx)
     if kind == "param":
-        f, k = arg.rsplit("::", 1)
+        m = re.search(r"((?P<f>.*)::)?(?P<k>.*)", arg)
+        f, k = m.group("f") if m.group("f") is not None else "params.yaml", m.group("k")
         return [7, PARAM_FMT[param_format(f)]] + enc_path(f) + enc_str(k)
     if kind in ("line_items", "lines"):
-        f, rng = arg.split("::", 1)
-        b, e = rng.split("-", 1)
+        m = re.search(r"(?P<f>[^:]+)::(?P<b>[0-9]*)-(?P<e>[0-9]*)", arg)
+        f, b, e = m.group("f"), m.group("b"), m.group("e")
         return [8 if kind == "line_items" else 9] + enc_path(f) + enc_u64(int(b) if b else 0) + enc_u64(int(e) if e else U64MAX)
     if kind == "url":
         return [10] + enc_str(arg)
@@ -208,6 +211,8 @@ def hx(x):
     return bytes(x).hex()
 
 
+KIND_BY_TAG = {0: "step", 1: "generic", 2: "file", 3: "glob_items", 4: "glob", 5: "regex_items", 6: "regex", 7: "param",
+               8: "line_items", 9: "lines", 10: "url", 11: "sqlite"}
 WHEN_TOK = {None: "~", "by_dependencies": "d", "always": "a", "never": "n"}
 INV_TOK = {"ByDependencies": "d", "Always": "a", "Never": "n"}
 
@@ -255,10 +260,12 @@ class PoolCursor:
     """hands out the pool strings round-robin so that every string is used on every run."""
     def __init__(self, start):
         self.i = start
+        self.used = set()
 
     def next(self):
         s = POOL[self.i % len(POOL)]
         self.i += 1
+        self.used.add(s)
         return s
 
 
@@ -404,7 +411,7 @@ class Runner:
         self.toks, self.real = [], []         # model tokens / real canonical outcomes (same length)
         self.fail = []                        # oracle failures: (what, detail)
         self.stats = {"invocations": 0, "recorded_deps": 0, "run_ok": 0, "roundtrips": 0, "refusals": 0, "overwrites": 0,
-                      "dep_kinds": {}, "out_kinds": {}, "whens": {}, "strings": set()}
+                      "dep_kinds": {}, "out_kinds": {}, "whens": {}, "recorded_kinds": {}, "strings": set()}
         self.rnd = 1000 + rng_seed % 1000
         self.known = ["default"]              # pipeline names in creation order (as the oracle expects them)
 
@@ -646,6 +653,26 @@ class Runner:
                 self.bad("overwrite with its own export: the %s export of the pipeline changed" % fmt.upper(), phase=phase,
                          original=o0[fmt].get(P), after=o4[fmt].get(P))
 
+    def reordered_file(self, tj, name):
+        """imports the JSON export with the dependencies and outputs of every step reversed (a hand-edited
+        file); the model says the export is the normal form again.  Compared with the model only."""
+        try:
+            j = json.loads(tj)
+        except ValueError:
+            return
+        steps = []
+        for st in j["steps"]:
+            st["dependencies"].reverse(); st["outputs"].reverse()
+            steps.append("/".join([hx(st["name"]), hx(st["command"]), INV_TOK[st["invalidate"]],
+                                   ",".join(hx(dep_payload_json(d)) for d in st["dependencies"]),
+                                   ",".join(hx(out_payload_json(o)) for o in st["outputs"])]))
+        r = self.x("pipeline", "--pipeline-name=" + name, "import", "--format=json", stdin=json.dumps(j) + "\n")
+        self.toks.append("X:%d:%s:0:%s:%s" % (self.nrnd(), hx(name), hx(j["workdir"]), ";".join(steps)))
+        self.real.append("ok" if not r.failed else "err")
+        if not r.failed:
+            self.known.append(name)
+            self.observe()
+
     def record_run(self, before, after):
         """tells the model which dependencies `pipeline run` recorded (observed on the real export)."""
         P = self.case["target"]
@@ -663,6 +690,8 @@ class Runner:
                     self.toks.append("C:%d:%s:%s:%s:%s" % (self.nrnd(), hx(P), hx(s["name"]), hx(p[:-1] + [0]), hx(p)))
                     self.real.append("ok")
                     self.stats["recorded_deps"] += 1
+                    kind = KIND_BY_TAG.get(p[0], "?")
+                    self.stats["recorded_kinds"][kind] = self.stats["recorded_kinds"].get(kind, 0) + 1
 
     def run(self):
         case = self.case
@@ -680,6 +709,9 @@ class Runner:
                 self.do_cmd(c)
             nn = case["new_names"]
             self.roundtrip("before", nn[0], nn[1])
+            tj = self.export(case["target"], "json")
+            if tj is not None:
+                self.reordered_file(tj, "reordered-file")
             if case["run"]:
                 P = case["target"]
                 before = self.export(P, "json")
@@ -709,18 +741,28 @@ def probe_fixed_rename(xvc_bin):
         return r.failed
 
 
-def has_colliding_rename(cmds):
-    """class predicate of finding P53 on a (shrunk) command list: some `update --rename Q` names a
-    pipeline that exists at that point."""
-    names = ["default"]
-    for c in cmds:
-        if c[0] == "new" and c[1] not in names:
-            names.append(c[1])
-        elif c[0] == "rename":
-            if c[1] in names and c[2] in names and c[1] != c[2]:
+P53_WHAT = "overwrite with its own export"
+
+
+def accepted_colliding_rename(runner):
+    """class predicate of finding P53 on an executed (shrunk) history: the real binary ACCEPTED an
+    `update --rename Q` although another pipeline was called Q.  (Together with the kind of alarm --
+    the export of a pipeline changes when it is overwritten with its own export -- this is the class
+    rename-onto-existing-name; Known_dup_names in Props/C14.v.)"""
+    names = [hx("default")]
+    for tok, real in zip(runner.toks, runner.real):
+        f = tok.split(":")
+        if real != "ok":
+            continue
+        if f[0] == "N":
+            names.append(f[2])
+        elif f[0] in ("I", "X") and f[2] not in names:
+            names.append(f[2])
+        elif f[0] == "R":
+            if f[3] in names and f[2] != f[3]:
                 return True
-            if c[1] in names:
-                names[names.index(c[1])] = c[2]
+            if f[2] in names:
+                names[names.index(f[2])] = f[3]
     return False
 
 
@@ -768,14 +810,16 @@ def run(chk, replay=None):
     chk.cov["fixed_rename_observed"] = fixed
 
     cases = []
+    cursor = PoolCursor(0)
+    if replay and not isinstance(replay.get("input"), dict):
+        replay = None          # a replay of a broken obligation / generator alarm names no input: run the whole check again
     if replay:
         cases = [("replay", replay["input"])]
     else:
         corpus = os.path.join(C.ROOT, "corpus", "C14")
         for f in sorted(os.listdir(corpus)) if os.path.isdir(corpus) else []:
             cases.append(("corpus/" + f, json.load(open(os.path.join(corpus, f)))["input"]))
-        n = 36 if tier == "quick" else 400
-        cursor = PoolCursor(0)
+        n = 30 if tier == "quick" else 300
         for i in range(n):
             cases.append(("gen%d" % i, gen_case(rng, i, tier, cursor)))
     workers = max(4, min(12, C.NPROC - 2))
@@ -788,13 +832,14 @@ def run(chk, replay=None):
                  {"theorem_or_correspondence": "schemamodel"}, has_input=False)
         outs = outs + ["<missing>"] * (len(lines) - len(outs))
 
-    dist = {"dep_kinds": {}, "out_kinds": {}, "whens": {}, "invocations": 0, "recorded_deps": 0, "runs_ok": 0, "runs": 0,
+    dist = {"dep_kinds": {}, "out_kinds": {}, "whens": {}, "recorded_kinds": {}, "invocations": 0, "recorded_deps": 0, "runs_ok": 0, "runs": 0,
             "roundtrips": 0, "refusals": 0, "overwrites": 0, "cases": len(cases)}
     strings = set()
     reported = 0
+    shrunk_once = False
     for (label, case), rn, out in zip(cases, runners, outs):
         st = rn.stats
-        for k in ("dep_kinds", "out_kinds", "whens"):
+        for k in ("dep_kinds", "out_kinds", "whens", "recorded_kinds"):
             for a, b in st[k].items():
                 dist[k][a] = dist[k].get(a, 0) + b
         for k in ("invocations", "recorded_deps", "roundtrips", "refusals", "overwrites"):
@@ -805,15 +850,25 @@ def run(chk, replay=None):
         chk.count(json.dumps(case, sort_keys=True), nontrivial)
         if label in ("gen0", "gen1") or label.startswith("corpus"):
             chk.sample({"case": label, "cmds": case["cmds"][:6], "model_line": lines[cases.index((label, case))][:300]}, limit=4)
+        klass = None
         if rn.fail and reported < 3:
             reported += 1
-            what, detail = rn.fail[0]
-            shrunk = shrink_case(xvc_bin, case, what, chk.seed) if not replay else case
-            klass = "rename-onto-existing-name" if has_colliding_rename(shrunk["cmds"]) else None
+            # an alarm outside the family of the known finding goes first, so that it cannot hide behind it
+            other = [f for f in rn.fail if not f[0].startswith(P53_WHAT)]
+            what, detail = (other or rn.fail)[0]
+            # corpus witnesses are minimal already; replays are re-executed as they are
+            # (only the first alarm is shrunk: every evaluation of the shrinker is a whole case)
+            if replay or label.startswith("corpus/") or shrunk_once:
+                shrunk, rs = case, rn
+            else:
+                shrunk = shrink_case(xvc_bin, case, what, chk.seed)
+                shrunk_once = True
+                rs = run_one(xvc_bin, shrunk, chk.seed)
+            klass = "rename-onto-existing-name" if (what.startswith(P53_WHAT) and accepted_colliding_rename(rs)) else None
             chk.fail("oracle", what, {"input": shrunk, "original_case": label, "detail": detail, "all_failures": [w for w, _ in rn.fail][:10],
                                       "kind": "impl-history"}, name="rt", klass=klass)
         d = compare_model(rn, out)
-        if d is not None and not rn.fail and reported < 3:
+        if d is not None and (not rn.fail or klass is not None) and reported < 3:    # (the model has the known class too)
             reported += 1
             msg, i = d
             chk.fail("correspondence", msg, {"input": case, "original_case": label, "token_index": i, "model_line": lines[runners.index(rn)],
@@ -825,8 +880,8 @@ def run(chk, replay=None):
             chk.fail("proof", "the model's export depends on the HashMap iteration order or on reloading the stores (export_stable)",
                      {"input": case, "model_out": out, "theorem_or_correspondence": "export_stable"}, name="stable", has_input=False)
     chk.cov["traces_validated_against_impl"] = len(cases)
-    dist["pool_strings_used"] = len(strings & set(POOL))
-    dist["pool_size"] = len(POOL)
+    dist["pool_strings_used"] = len(cursor.used) if not replay else 0
+    dist["pool_size"] = len(set(POOL))
     chk.cov["distribution"] = dist
     chk.cov["rule"] = ("one evaluation = one scratch repository: a command history building two pipelines (2-4 steps, up to 7 dependencies per step over "
                        "file/glob/glob_items/param/regex/regex_items/lines/line_items/step/generic/url (+ sqlite-query in thorough), file/metric/image outputs, all --when modes, "
@@ -837,8 +892,8 @@ def run(chk, replay=None):
         if dist["runs"] and dist["recorded_deps"] == 0:
             chk.fail("correspondence", "no pipeline run recorded any dependency state: the generator no longer reaches the after-run half of the property",
                      {"theorem_or_correspondence": "generator"}, name="gen", has_input=False)
-        if dist["pool_strings_used"] < len(POOL):
-            chk.fail("correspondence", "the generator used only %d of %d pool strings" % (dist["pool_strings_used"], len(POOL)),
+        if dist["pool_strings_used"] < len(set(POOL)):
+            chk.fail("correspondence", "the generator used only %d of %d pool strings" % (dist["pool_strings_used"], len(set(POOL))),
                      {"theorem_or_correspondence": "generator"}, name="gen", has_input=False)
     return chk
 
@@ -855,5 +910,5 @@ def shrink_case(xvc_bin, case, what, seed):
             return False
         return any(w.split(":")[0] == key for w, _ in rn.fail)
     keep = [c for c in case["cmds"]]
-    small = C.shrink_list(keep, still, max_rounds=40)
+    small = C.shrink_list(keep, still, max_rounds=16)
     return dict(case, cmds=small)
